@@ -421,6 +421,18 @@ theorem refcount_invariant (nAcc h0 : Nat) (vals : List (Nat × Nat)) (hv : vals
     have := hi.ri.eper e he
     exact ⟨Nat.lt_of_succ_le this, hi.ri.refs_slash_pos he⟩
 
+/-- **refcount_total** — the SDK's own `ReferenceCountInvariant`, as a theorem: after any history the reference counts
+of all historical records of a validator add up to 1 (the validator's current period) + the number of delegations
++ the number of slash events (no record exists at or above the current period, so the sum over the periods below it
+is the sum over all records). -/
+theorem refcount_total (nAcc h0 : Nat) (vals : List (Nat × Nat)) (hv : vals.length ≤ nAcc) (ops : List Op)
+    {w : Nat} (hw : w < vals.length) :
+    sumTo (reachVS nAcc h0 vals ops w).period (reachVS nAcc h0 vals ops w).refs =
+      delNum nAcc (reachVS nAcc h0 vals ops w) + 1 + (reachVS nAcc h0 vals ops w).slashes.length ∧
+    ∀ p, (reachVS nAcc h0 vals ops w).period ≤ p → (reachVS nAcc h0 vals ops w).refs p = 0 := by
+  have hi := reach_SInv cfg_good nAcc h0 vals hv ops hw
+  exact ⟨hi.ri.total hi.dom, fun p hp => hi.ri.refs_zero hp⟩
+
 /-- **still_withdrawable (partial).**  After any history every delegator of every validator can withdraw its rewards
 and undelegate all of its shares, at any height: both SDK calls succeed — the withdrawal leaves the delegation in
 place, the undelegation removes it — *unless* the SDK's own stake sanity check in `CalculateDelegationRewards`
@@ -487,8 +499,27 @@ theorem transfer_reinitialises (nAcc h0 : Nat) (vals : List (Nat × Nat)) (hv : 
       v'.sinfo t = some ⟨(reachVS nAcc h0 vals ops w).period + 1,
         v'.tokensFromSharesTrunc (((reachVS nAcc h0 vals ops w).del t).getD 0 + X), h⟩ ∧
       v'.sinfo f = (if fsh - X = 0 then none
-        else some ⟨(reachVS nAcc h0 vals ops w).period, v'.tokensFromSharesTrunc (fsh - X), h⟩) :=
-  transfer_shape cfg_good (reach_SInv cfg_good nAcc h0 vals hv ops hw) hf htn hne ht
+        else some ⟨(reachVS nAcc h0 vals ops w).period, v'.tokensFromSharesTrunc (fsh - X), h⟩) := by
+  obtain ⟨fsh, a1, a2, a3, a4, a5, a6, _⟩ :=
+    transfer_shape cfg_good (reach_SInv cfg_good nAcc h0 vals hv ops hw) hf htn hne ht
+  exact ⟨fsh, a1, a2, a3, a4, a5, a6⟩
+
+/-- **transfer_frame.**  A transfer leaves every third party's reward entitlement alone: for every delegator other
+than the two parties the delegation and the starting info are unchanged, the cumulative reward ratio of every period
+that existed before the call is unchanged, the slash events are unchanged, and the validator's tokens and total
+shares are unchanged — these are all the inputs of `CalculateDelegationRewards` for a third party, and by
+`refcount_invariant` every record its starting info or a slash event refers to still exists afterwards. -/
+theorem transfer_frame (nAcc h0 : Nat) (vals : List (Nat × Nat)) (hv : vals.length ≤ nAcc) (ops : List Op)
+    {w : Nat} (hw : w < vals.length) {v' : VS} {h f t X rf rt : Nat} {recv : Bool} (hf : f < nAcc) (htn : t < nAcc)
+    (hne : f ≠ t) (ht : VS.transfer cfg (reachVS nAcc h0 vals ops w) h f t X recv = .ok (v', rf, rt)) :
+    (∀ d, d ≠ f → d ≠ t → v'.del d = (reachVS nAcc h0 vals ops w).del d ∧ v'.sinfo d = (reachVS nAcc h0 vals ops w).sinfo d) ∧
+    (∀ x, x < (reachVS nAcc h0 vals ops w).period → v'.ratio x = (reachVS nAcc h0 vals ops w).ratio x) ∧
+    v'.slashes = (reachVS nAcc h0 vals ops w).slashes ∧
+    v'.tokens = (reachVS nAcc h0 vals ops w).tokens ∧ v'.shares = (reachVS nAcc h0 vals ops w).shares := by
+  obtain ⟨fsh, _, _, _, _, _, _, b1, b2, b3⟩ :=
+    transfer_shape cfg_good (reach_SInv cfg_good nAcc h0 vals hv ops hw) hf htn hne ht
+  obtain ⟨_, _, _, _, _, _, c1, c2, c3⟩ := transfer_moves_exactly hne ht
+  exact ⟨fun d h1 h2 => ⟨c1 d h1 h2, b1 d h1 h2⟩, b2, b3, c2, c3⟩
 
 /-- the failures of an operation that are ordinary refusals of the request, as opposed to failures of the
 distribution / staking bookkeeping -/
